@@ -47,6 +47,9 @@ pub struct PoolCfg {
     pub exact_order: bool,
     /// Environment answers are free choices (reachability mode).
     pub free_faults: bool,
+    /// The order and flavour of the builder calls that configure the pool is
+    /// a free choice (see `build_pool_with`).
+    pub builder_sweep: bool,
 }
 
 impl PoolCfg {
@@ -62,6 +65,7 @@ impl PoolCfg {
             auto_gates: true,
             exact_order: false,
             free_faults: false,
+            builder_sweep: false,
         }
     }
 }
@@ -989,12 +993,28 @@ pub fn build_pool_with(timeouts: deadpool::managed::Timeouts, runtime: Option<de
         w.begin_op(0, OpKind::Build);
         w.cfg.clone()
     });
-    let mut b = Pool::builder(Mgr)
-        .max_size(cfg.max_size)
-        .timeouts(timeouts)
-        .queue_mode(if cfg.lifo { QueueMode::Lifo } else { QueueMode::Fifo });
+    // The same configuration, said in different ways: whatever the order and
+    // flavour of the builder calls, the pool must be built with exactly this
+    // max_size, these timeouts, this queue mode and this runtime.
+    let qm = if cfg.lifo { QueueMode::Lifo } else { QueueMode::Fifo };
+    let variant = if cfg.builder_sweep { dpmc::explorer::choose_free(7) } else { 0 };
+    trace!("builder variant {}", variant);
+    let b0 = Pool::builder(Mgr);
+    let mut b = match variant {
+        0 => b0.max_size(cfg.max_size).timeouts(timeouts).queue_mode(qm),
+        1 => b0.queue_mode(qm).timeouts(timeouts).max_size(cfg.max_size),
+        2 => b0.queue_mode(qm).max_size(cfg.max_size).wait_timeout(timeouts.wait).create_timeout(timeouts.create).recycle_timeout(timeouts.recycle),
+        3 => b0.recycle_timeout(timeouts.recycle).create_timeout(timeouts.create).wait_timeout(timeouts.wait).max_size(cfg.max_size).queue_mode(qm),
+        4 => b0.config(deadpool::managed::PoolConfig { max_size: cfg.max_size, timeouts, queue_mode: qm }),
+        5 => b0.config(deadpool::managed::PoolConfig { max_size: cfg.max_size + 1, timeouts: deadpool::managed::Timeouts::new(), queue_mode: qm }).timeouts(timeouts).max_size(cfg.max_size),
+        _ => b0.max_size(cfg.max_size).queue_mode(qm).timeouts(deadpool::managed::Timeouts { wait: Some(std::time::Duration::from_secs(1)), create: None, recycle: None }).timeouts(timeouts),
+    };
     if let Some(rt) = runtime {
         b = b.runtime(rt);
+    }
+    if variant >= 3 {
+        // setters called after the runtime was chosen must not disturb it either
+        b = b.max_size(cfg.max_size).queue_mode(qm);
     }
     for (i, h) in cfg.pre_recycle.iter().enumerate() {
         b = b.pre_recycle(mk_hook(Site::PreRecycle(i as u8), h.asynchronous));
